@@ -3,10 +3,10 @@
    literal 'r'; (2) for every saved tree and every inner node, the result of read(path, emdpath, tree) for each of the
    three tree options, as a closed term: the root with its metadata and -- nothing else than -- the node alone / the node
    with its whole branch / the branch below the node attached at root level, and this is what the full read holds at
-   that path; (3) compositionality of the tree reader on arbitrary files; (4) a path not in the file is an error, a
-   leading slash is ignored.  sha256 of the file before/after every read: oracle.  Byte immutability under mode 'r' is
+   that path; (3) compositionality of the tree reader on arbitrary files; (4) a path not in the file is an error -- step-wise on arbitrary
+   groups, and for read() on a saved tree (a component that names no node, the root's name left out) --, a leading slash is ignored.  sha256 of the file before/after every read: oracle.  Byte immutability under mode 'r' is
    HDF5's (trusted). *)
-From Emd Require Import Base.Prelude Model.H5 Model.Emd Model.Reader Generated.Tables Proofs.PTree Proofs.P08 Proofs.PRead.
+From Emd Require Import Base.Prelude Model.H5 Model.Emd Model.Reader Generated.Tables Proofs.PTree Proofs.P08 Proofs.PRead Proofs.PMissing.
 
 Theorem C08_read_path_opens_read_only :
   Forall (fun m => m = "r") read_path_open_modes /\ read_path_open_modes <> [].
@@ -55,6 +55,26 @@ Theorem C08_missing_path_is_an_error :
   forall a l k q, get l k = None -> exists e, walk_groups (G a l) (k :: q) = Err e.
 Proof. intros a l k q H. cbn. rewrite H. eauto. Qed.
 Print Assumptions C08_missing_path_is_an_error.
+
+(* ... at the level of read() on a saved tree: a path that leaves the tree at some component (no node of that name where it
+   stands, and no dataset / bundle of the node it would hang under), or that does not start with the root's name -- e.g. an
+   existing path with the root's name left out -- is refused, whatever the tree option *)
+Theorem C08_a_path_that_leaves_the_saved_tree_is_refused :
+  forall c root pre x q k tr,
+    rcls root = CRoot -> ok_tree root -> rwalk root pre = Some k ->
+    rget (rkids k) x = None -> ~ In x (keys (shallow_links k)) ->
+    Forall (fun s => s <> "" /\ no_slash s = true) (rname root :: pre ++ x :: q) ->
+    read (H5 (whole_file c root)) (Some (join_slash (rname root :: pre ++ x :: q))) tr = Err EAssert.
+Proof. exact read_missing_node. Qed.
+Print Assumptions C08_a_path_that_leaves_the_saved_tree_is_refused.
+
+Theorem C08_a_path_that_does_not_start_with_the_root_name_is_refused :
+  forall c root rp names tr,
+    rcls root = CRoot -> rp <> rname root ->
+    Forall (fun s => s <> "" /\ no_slash s = true) (rp :: names) ->
+    read (H5 (whole_file c root)) (Some (join_slash (rp :: names))) tr = Err EAssert.
+Proof. exact read_missing_root. Qed.
+Print Assumptions C08_a_path_that_does_not_start_with_the_root_name_is_refused.
 
 (* a leading '/' is ignored *)
 Theorem C08_leading_slash_ignored :
